@@ -4,6 +4,7 @@ import (
 	"encoding/binary"
 	"errors"
 	"fmt"
+	"math"
 
 	"github.com/New-JAMneration/JAM-Protocol/internal/types"
 	utils "github.com/New-JAMneration/JAM-Protocol/internal/utilities"
@@ -216,7 +217,9 @@ func decodeThreeRegisters(instructionCode []byte, pc ProgramCounter) (rA uint8, 
 
 func storeIntoMemory(interp *Interpreter, offset int, memIndex uint32, immediate uint64) ExitReason {
 	mem := interp.Memory
-	if memIndex < uint32(1<<16) { // 0.7.2  A.8 check memory > 2^16
+	// 0.7.2  A.8 check memory > 2^16; addresses are taken modulo 2^32, so an access that runs
+	// past the top of the address space touches the first (never accessible) 64 KiB as well
+	if memIndex < uint32(1<<16) || memIndex > math.MaxUint32-uint32(offset-1) {
 		return ExitPanic
 	}
 
@@ -268,7 +271,9 @@ func storeIntoMemory(interp *Interpreter, offset int, memIndex uint32, immediate
 
 func loadFromMemory(interp *Interpreter, offset uint32, vx uint32) (uint64, ExitReason) {
 	mem := interp.Memory
-	if vx < uint32(1<<16) { // 0.7.2  A.8 check memory > 2^16
+	// 0.7.2  A.8 check memory > 2^16; addresses are taken modulo 2^32, so an access that runs
+	// past the top of the address space touches the first (never accessible) 64 KiB as well
+	if vx < uint32(1<<16) || vx > math.MaxUint32-(offset-1) {
 		return 0, ExitPanic
 	}
 
